@@ -23,6 +23,10 @@ def replay_fn(func, args):
       ok = h.check_srb(cdm, A, args['n'], args['batch_size'], 0, args['steps_c'], False, False, None)
     else:
       ok = h.check_srb(cdm, A, args['n'], args['batch_size'], args['epochs_c'], args['steps_c'], args['drop'], args['skip'], None)
+    if ok and not args.get('skip'):
+      msg = h.reshuffle_probe_real(cdm, A, args['n'], args['batch_size'], args.get('epochs_c', 0), args['steps_c'], args.get('drop', False))
+      if msg:
+        return True, msg
   except Exception as e:   # pylint: disable=broad-except
     return True, 'real code raises %r' % (e,)
   return (not ok), ('real numpy run violates the oracle (batch size / count / permutation windows / repeatability)' if not ok else 'real run satisfies the oracle')
@@ -48,7 +52,11 @@ def check(run):
   run.witness('np_lite-vs-numpy', 'translation', not probs, '; '.join(probs))
   h, adapters = _harness()
   cdm, A = adapters.load_real_cd(), adapters.RealNP
-  ok = all(h.check_srb(cdm, A, 5, b, 1, -1, d, False, None) for b in (1, 2, 3, 5, 7) for d in (False, True)) and \
-      h.check_srb(cdm, A, 5, 2, 0, 4, False, True, None)
-  run.witness('oracle-accepts-real-code-on-test-inputs', 'translation', ok)
+  # concrete layer: the oracle on the real code and real numpy for literal inputs (a failure here is a real failing input)
+  lits = [dict(n=5, batch_size=b, epochs_c=1, steps_c=-1, drop=d, skip=False) for b in (1, 2, 3, 5, 7) for d in (False, True)] + \
+      [dict(n=5, batch_size=2, epochs_c=0, steps_c=4, drop=False, skip=True), dict(n=4, batch_size=2, epochs_c=3, steps_c=-1, drop=False, skip=False),
+       dict(n=6, batch_size=4, epochs_c=0, steps_c=6, drop=False, skip=False), dict(n=3, batch_size=3, epochs_c=2, steps_c=0, drop=False, skip=False)]
+  for a in lits:
+    bad, msg = replay_fn('srb', a)
+    xh.concrete_probe(run, 'srb%s' % (sorted(a.items()),), bad, msg, {'func': 'srb', 'args': repr(a)})
   xh.discharge(run, HARNESS, [('srb', 'prop'), ('srb_big_batch', 'prop'), ('srb_reach', 'reach')], timeout, replay_fn, env)
